@@ -79,6 +79,34 @@ def run(c):
     if not c.run_harness("dump") or not c.run_harness("gen-c17"):
         return
     st_holder["qd"] = json.load(open(os.path.join(c.work, "stats.json")))["quantity_dims"]
+    # a second, small database asked in the same process after the bundled one
+    two = json.load(open(os.path.join(c.work, "twodb.json")))
+    for a in two["answers"]:
+        bad = None
+        if a["kind"] == "factorize":
+            foreign = sorted({n for f in a["names"] for n in f if n not in two["quantities"]})
+            if foreign:
+                bad = "names quantities the database asked does not have: %s" % foreign
+            elif not a["names"]:
+                bad = "lists no factorization although the database has matching quantities"
+        elif a["kind"] == "unitsfor" and a["q"] == "units for m":
+            listed = [u for g in a["groups"] for u in g["units"]]
+            if sorted(listed) != sorted(two["units"]):
+                bad = "lists %s, the units of that dimensionality are %s" % (sorted(listed), sorted(two["units"]))
+            for g in a["groups"]:
+                for u in g["units"]:
+                    if two["units"].get(u) != g["category"]:
+                        bad = "lists %s under %r, its category is %r" % (u, g["category"], two["units"].get(u))
+            for name, ids in two["category_ids"].items():
+                k = sum(1 for g in a["groups"] if g["category"] == name)
+                if k > ids:
+                    bad = "the %d categories called %r are spread over %d groups" % (ids, name, k)
+        elif a["kind"] in ("error", "other") and a["q"] != "units for m / s":
+            bad = "answered %s" % a
+        if bad:
+            c.violation("twodb:" + a["q"], "C17: a small second database, asked `%s` after the bundled one in the same process, %s" % (a["q"], bad),
+                        {"kind": "history", "definitions": "see harness/src/gen_units.rs (run_c17, second database)", "answer": a}, found=True)
+    c.coverage["second_database_queries"] = len(two["answers"])
     st = vlib.eval_stream(c, "gen-c17", independent=True, judge=judge, budget_ms=60000)
     if st is None:
         return
